@@ -62,21 +62,22 @@ DRIVERS = {
     "nodeid": lambda rng, tier: gen.gen_nodeid(rng, T(tier, 40, 2000)),
     "keys": lambda rng, tier: gen.gen_keys(rng, T(tier, 60, 3000)),
     "api": lambda rng, tier: gen.gen_api(rng, T(tier, 24, 400)),
+    "huge": lambda rng, tier: gen.gen_huge(rng),
 }
 
 # property -> drivers, bounded models
 CHECKS = {
     "C01": {"drivers": ["auth", "valid", "api"], "models": ["gen_secp"]},
     "C02": {"drivers": ["struct", "valid"], "models": ["gen_secp", "gen_ed"]},
-    "C03": {"drivers": ["hist_full", "auth_light", "struct", "text", "prefix", "typed_b", "nodeid", "keys", "api"], "models": ["hist_k256", "gen_ed"]},
+    "C03": {"drivers": ["hist_full", "auth_light", "struct", "text", "prefix", "typed_b", "nodeid", "keys", "api", "huge"], "models": ["hist_k256", "gen_ed"]},
     "C04": {"drivers": ["valid", "struct", "hist_full", "size_full"], "models": ["gen_secp"]},
-    "C05": {"drivers": ["hist", "hist_long", "size"], "models": ["hist_k256", "hist_ed"]},
-    "C06": {"drivers": ["hist", "size", "seq"], "models": ["hist_k256"]},
+    "C05": {"drivers": ["hist", "hist_long", "size"], "models": ["hist_k256", "hist_ed", "hist_comb_secp", "hist_comb_ed"]},
+    "C06": {"drivers": ["hist", "size", "seq"], "models": ["hist_k256", "hist_comb_secp"]},
     "C07": {"drivers": ["seq", "hist"], "models": ["hist_k256"]},
     "C08": {"drivers": ["hist", "hist_long", "seq", "size"], "models": ["hist_k256"]},
     "C09": {"drivers": ["size", "hist", "struct"], "models": ["hist_k256"]},
     "C10": {"drivers": ["nid", "valid", "hist", "cross", "api"], "models": ["hist_ed"]},
-    "C11": {"drivers": ["cross", "struct", "auth_light", "valid", "api"], "models": ["gen_secp", "gen_ed"]},
+    "C11": {"drivers": ["cross", "struct", "auth_light", "valid", "api"], "models": ["gen_secp", "gen_ed", "hist_comb_ed"]},
     "C12": {"drivers": ["text", "hist_full", "size_full"], "models": ["text"]},
     "C13": {"drivers": ["prefix", "valid", "api"], "models": ["stream"]},
     "C14": {"drivers": ["typed_q", "typed_b", "hist_full"], "models": ["typed"]},
@@ -212,9 +213,10 @@ def run_check(pid, tier, seed, keep=False):
                 known_hits.setdefault(kf.get("id", kf.get("what", "?")), [kf, 0])[1] += 1
             else:
                 viol.setdefault((p, c), []).append((b, ev))
-    for pair in hangs:
-        # a step that did not terminate: C03
-        viol.setdefault(("C03", "call_did_not_terminate"), []).append(({"sid": "?", "l": 0, "script_file": pair[0], "trace_file": pair[1], "fails": []}, {"t": "hang"}))
+    for kind, sfile, script in hangs:
+        # a step that did not terminate, or that brought the process down (abort, stack overflow): C03, reported by every check
+        name = "call_did_not_terminate" if kind == "hang" else "call_aborted_the_process"
+        viol.setdefault(("C03", name), []).append(({"sid": "?", "l": 0, "script_file": sfile, "trace_file": "", "fails": [], "script": script}, {"t": kind}))
     if tool:
         b, c = tool[0]
         ev = event_at(b["trace_file"], b["l"])
@@ -232,7 +234,7 @@ def run_check(pid, tier, seed, keep=False):
         rp = os.path.join(REPLAYS, "%s-%s-s%d-%s.json" % (p, tier, seed, hashlib.sha256(c.encode()).hexdigest()[:8]))
         json.dump({"property": p, "check": c, "occurrences": len(lst), "tier": tier, "seed": seed,
                    "event": summarize_event(ev), "failed_checks": b.get("fails"),
-                   "script": script_of(b["script_file"], b["sid"]) if b.get("sid") != "?" else None}, open(rp, "w"), indent=1)
+                   "script": script_of(b["script_file"], b["sid"]) if b.get("sid") != "?" else b.get("script")}, open(rp, "w"), indent=1)
         lines.append("VIOLATION property=%s replay=%s  (%s; %d occurrence(s))" % (p, rp, c, len(lst)))
         nviol += len(lst)
     for kid, (kf, n) in sorted(known_hits.items()):
@@ -332,7 +334,7 @@ def replay(path):
     load_keys()
     wd = run.workdir("replay-%d" % os.getpid())
     files, hangs = run.exec_scripts([r["script"]], wd)
-    nev, bads = run.validate_traces(files, wd)
+    nev, bads = run.validate_traces([f for f in files if os.path.exists(f[1]) and os.path.getsize(f[1]) > 0], wd) if not hangs else (0, [])
     hit = False
     for b in bads:
         for f in b["fails"]:
@@ -340,7 +342,7 @@ def replay(path):
             if f["p"] == r.get("property"):
                 hit = True
     if hangs:
-        print("step did not terminate")
+        print("a step did not terminate or aborted the process")
         hit = True
     if hit:
         print("VIOLATION property=%s replay=%s" % (r.get("property"), path))
